@@ -23,6 +23,7 @@ namespace sched
     {
         int preemption_bound = 2;
         int horizon = 400;   // scheduling points per execution
+        int spurious_bound = 0; // environment deviation: up to this many spurious condition-variable wake-ups (POSIX allows them)
         int shard = 0;       // harness-level partition of the schedule space:
         int nshard = 1;      //   executions whose first `shard_depth` decisions hash to another shard
         int shard_depth = 5; //   are run to completion without further branching and flagged `skipped`
@@ -32,7 +33,7 @@ namespace sched
         bool deadlock = false;   // some thread not finished and none enabled
         bool horizon_hit = false;
         bool skipped = false;    // owned by another shard: discard (throw mc::Skip)
-        int steps = 0, preemptions = 0, choice_points = 0;
+        int steps = 0, preemptions = 0, choice_points = 0, spurious = 0;
         std::vector<int> blocked;        // thread ids still blocked at the end
         std::vector<std::string> errors; // model-level errors: use of a destroyed object, unlock by non-owner, ...
         std::string trace;               // "t0:lock(m0) t1:..." object ids in order of first use
